@@ -192,6 +192,11 @@ class C17(PropCheck):
             out.append(rand_history(rng, rng.randint(1, 8), rng.randint(2, 30)))
         for _ in range(n // 2):
             out.append(rand_history(rng, rng.randint(2, 8), rng.randint(4, 30), vanish=True))
+        # a module that appears during an outer extraction, then a nested extract_child from a hook
+        for i in range(6 if tier == "quick" else 40):
+            k = rng.choice(["mod", "builtin", "both"])
+            out.append({"k": "nested", "mods": [[0, rng.random() < 0.5, True, False, False], [1, k in ("mod", "both"), k in ("builtin", "both"), False, False]],
+                        "via": rng.choice(["unwrap", "elaborate"])})
         # the F16 shape: a module with both kinds of glue vanishes during the scan and comes back
         out.append({"k": "seq", "mods": [[0, False, False, False, False], [1, True, True, False, False], [2, False, False, False, False]],
                     "ops": [["insert", 0], ["insert", 1], ["extractR", [1]], ["insert", 1], ["insert", 2], ["extract"]]})
@@ -233,6 +238,8 @@ class C17(PropCheck):
                 else:
                     lab.extract()
             return " ".join(lab.log)
+        if case["k"] == "nested":
+            return self.run_nested(case)
         # ---- concurrent ----
         mods = case["mods"]
         for m, *_ in mods:
@@ -273,6 +280,45 @@ class C17(PropCheck):
         results["all_done"] = all(d.is_set() for d in done)
         return results
 
+    def run_nested(self, case):
+        """Module 1 appears in sys.modules during an outer extraction (a hook imports it lazily); the same hook then makes a
+        nested extract_child(): when that returns, module 1's glue must have run."""
+        import stackscope
+
+        lab = self.lab
+        lab.insert(0)
+        seen: Dict[str, Any] = {}
+
+        class Item:
+            pass
+
+        def body():
+            lab.insert(1)
+            st = stackscope.extract_child(object(), for_task=False)
+            seen["log_at_nested_return"] = list(lab.log)
+
+        if case["via"] == "unwrap":
+            @stackscope.unwrap_stackitem.register(Item)
+            def _unwrap(item):
+                body()
+                return None
+            target: Any = Item()
+        else:
+            def fn():
+                yield 1
+
+            @stackscope.elaborate_frame.register(fn)
+            def _elab(frame, next_inner):
+                body()
+                return None
+            target = fn()
+            next(target)
+        with warnings.catch_warnings():
+            warnings.simplefilter("ignore")
+            st = stackscope.extract(target)
+        lab.log.append("ret")
+        return {"log": list(lab.log), "nested": seen.get("log_at_nested_return"), "error": None if st.error is None else repr(st.error), "nested_case": True}
+
     def canon(self, case, real):
         if isinstance(real, dict) and "log" in real and not real.get("error"):
             return " ".join(real["log"])
@@ -282,6 +328,21 @@ class C17(PropCheck):
     def oracle(self, case, real):
         mods = {m[0]: m for m in case["mods"]}
         log = real.split() if isinstance(real, str) else real.get("log", [])
+        if isinstance(real, dict) and real.get("nested_case"):
+            if real.get("error"):
+                return f"outer extraction reported {real['error']}"
+            at = real.get("nested")
+            if at is None:
+                return "the hook making the nested extraction never ran"
+            _, has_mod, has_builtin, _, _ = case["mods"][1]
+            want = f"{'mod' if has_mod else 'builtin'}1"
+            if want not in at:
+                return (f"a nested extract_child() that started after module 1 appeared returned before its glue ({want}) had run "
+                        f"(log at that moment {at}, final log {real['log']})")
+            log = real["log"]
+            if len([e for e in log if e.endswith("1") and e.startswith(("mod", "builtin"))]) != 1:
+                return f"glue of module 1 ran {log} (expected exactly one call)"
+            return None
         if isinstance(real, dict) and real.get("error"):
             return real["error"]
         ran = [e for e in log if e.startswith(("mod", "builtin"))]
